@@ -51,6 +51,8 @@ func (prop) Gen(r *core.Rand, tier string) []core.Case {
 		n = 5000
 	}
 	cs := []core.Case{
+		// more threshold credits than the settle queue holds (1000) while Pay is slow: none of the requests may be lost
+		{ID: "fix-burst-slow-pay", NT: true, Ops: []string{"burst 0 1100 100 0", "unpaid 0 0", "burst 1 5 30 0", "unpaid 1 0", "notify 0 110000 0", "burst 0 3 99 0", "unpaid 0 0"}},
 		{ID: "fix-threshold-boundary", NT: true, Ops: []string{"credit 0 99 0 0", "credit 0 1 0 0", "unpaid 0 0", "notify 0 100 0", "unpaid 0 0", "credit 0 100 0 0"}},
 		{ID: "fix-overpay-truncates", NT: true, Ops: []string{"credit 0 40 5 0", "notify 0 50 0", "unpaid 0 0", "notify 0 1 0", "credit 0 7 0 0", "unpaid 0 0"}},
 		{ID: "fix-debit-tolerance", NT: true, Ops: []string{"debit 0 10 0 999 0", "debit 0 10 0 1000 0", "debit 0 10 0 1001 0", "debit 0 10 0 e 0", "debit 1 10 e 5 0"}},
@@ -525,6 +527,73 @@ func (rn *runner) step(ctx *core.Ctx, op []string) string {
 		}
 		rn.checkUnpaid(ctx, p, "reserve")
 		return out
+	case len(op) == 5 && op[0] == "burst":
+		// n credits of amt to one peer while the settlement layer's Pay is slow (gated): the payment requests queue
+		// up behind the one in progress; every credit that leaves the unpaid balance at or above the threshold must
+		// still be followed by its payment request once Pay gets going again
+		n, ok1 := atoi(op[2])
+		amt, ok2 := atoi(op[3])
+		rt, ok3 := parseOI(op[4])
+		if !ok1 || !ok2 || !ok3 || n == 0 || n > 3000 {
+			return "bad-op"
+		}
+		rn.sc.Set(func(s *settle.Script) { s.Retrieve, s.PutRetErr = rt, false })
+		rn.sc.TakeCalls()
+		open := rn.sc.GatePay()
+		done := make(chan int, 1)
+		go func() {
+			okc := 0
+			for i := uint64(0); i < n; i++ {
+				if rn.acc.Credit(context.Background(), peer, amt) == nil {
+					okc++
+				}
+			}
+			done <- okc
+		}()
+		// let the credits run into the full queue (or finish), then open the gate
+		okc, finished := 0, false
+		select {
+		case okc = <-done:
+			finished = true
+		case <-time.After(300 * time.Millisecond):
+		}
+		open()
+		if !finished {
+			select {
+			case okc = <-done:
+			case <-time.After(30 * time.Second):
+				return "timeout"
+			}
+		}
+		// wait until the settle goroutine has worked off the queue (no new settlement calls for 200 ms)
+		for quiet, i := 0, 0; quiet < 4 && i < 400; i++ {
+			time.Sleep(50 * time.Millisecond)
+			if len(rn.sc.TakeCalls()) == 0 {
+				quiet++
+			} else {
+				quiet = 0
+			}
+		}
+		pays, okd := rn.drainPays(peer)
+		if !okd {
+			return "timeout"
+		}
+		want := 0
+		if rn.contact(p, rt) {
+			for i := 0; i < okc; i++ {
+				rn.shadow[p] = new(big.Int).Add(rn.shadow[p], new(big.Int).SetUint64(amt))
+				if rn.shadow[p].Cmp(big.NewInt(threshold)) >= 0 {
+					want++
+				}
+			}
+			if pays < want {
+				ctx.Fail("pay-missing.burst", "%d credits left the unpaid balance at or above the threshold %d while Pay was slow, only %d payment requests followed", want, threshold, pays)
+			} else if pays > want {
+				ctx.Fail("pay-duplicate", "%d payment requests for %d credits at or above the threshold", pays, want)
+			}
+		}
+		rn.checkUnpaid(ctx, p, "burst")
+		return fmt.Sprintf("ok n=%d pay=%d", okc, pays)
 	case len(op) == 5 && op[0] == "credit":
 		amt, ok1 := atoi(op[2])
 		rt, ok2 := parseOI(op[3])
